@@ -29,6 +29,10 @@ Only rewrites whose result is the same program are made, each under a stated con
   parameters, never re-assigned)  ->  the closure ``def f()`` reading ``a`` and ``b``
   directly: the call binds ``p`` to the one value ``a`` ever has.
 
+* a private module level function whose every use is a call ``f(self, ...)`` from methods
+  of one class gets its first parameter renamed to ``self``: it is a method of that class
+  written outside of it, and reads the same as the method would.
+
 Assignment expressions elsewhere (second operand of ``and``/``or``, comprehensions,
 ``while`` tests, ``assert``) stay as they are and are interpreted by the path engine.
 """
@@ -496,6 +500,53 @@ def _close_over_arguments(tree) -> int:
     return count
 
 
+def _selfify(tree) -> int:
+    count = 0
+    if not isinstance(tree, ast.Module):
+        return 0
+    methods = {}
+    for cls in [n for n in tree.body if isinstance(n, ast.ClassDef)]:
+        for fn in cls.body:
+            if isinstance(fn, (ast.FunctionDef, ast.AsyncFunctionDef)) and fn.args.args \
+                    and fn.args.args[0].arg == 'self':
+                for node in ast.walk(fn):
+                    methods[id(node)] = cls.name
+    for fn in [n for n in tree.body if isinstance(n, (ast.FunctionDef, ast.AsyncFunctionDef))]:
+        name = fn.name
+        if not name.startswith('_') or (name.startswith('__') and name.endswith('__')):
+            continue
+        args = fn.args
+        if args.posonlyargs or not args.args or args.args[0].arg == 'self' or \
+                fn.decorator_list:
+            continue
+        first = args.args[0].arg
+        inside = {id(n) for n in ast.walk(fn)}
+        if any(isinstance(n, ast.Name) and n.id == 'self' for n in ast.walk(fn)) or any(
+                isinstance(n, ast.arg) and n.arg == 'self' for n in ast.walk(fn)):
+            continue
+        if any(isinstance(n, ast.Name) and n.id == first
+               and isinstance(n.ctx, (ast.Store, ast.Del)) for n in ast.walk(fn)):
+            continue
+        if any(isinstance(n, (ast.FunctionDef, ast.AsyncFunctionDef, ast.Lambda,
+                              ast.ClassDef)) and n is not fn for n in ast.walk(fn)):
+            continue
+        uses = [n for n in ast.walk(tree) if isinstance(n, ast.Name) and n.id == name
+                and id(n) not in inside]
+        calls = [n for n in ast.walk(tree) if isinstance(n, ast.Call) and n.func in uses]
+        owners = {methods.get(id(c)) for c in calls}
+        if not uses or len(calls) != len(uses) or len(owners) != 1 or None in owners:
+            continue
+        if not all(c.args and isinstance(c.args[0], ast.Name) and c.args[0].id == 'self'
+                   and not any(kw.arg == first for kw in c.keywords) for c in calls):
+            continue
+        for node in ast.walk(fn):
+            if isinstance(node, ast.Name) and node.id == first:
+                node.id = 'self'
+        args.args[0].arg = 'self'
+        count += 1
+    return count
+
+
 def desugar(tree):
     """normalise ``tree`` in place; returns the number of rewrites"""
     count = 0
@@ -506,6 +557,7 @@ def desugar(tree):
     count += _fuse_generator_loops(tree)
     count += _fuse_iterator_loops(tree)
     count += _close_over_arguments(tree)
+    count += _selfify(tree)
     for node in list(ast.walk(tree)):
         if isinstance(node, ast.ClassDef):
             continue
